@@ -430,11 +430,9 @@ impl Prop for C16 {
     fn sanitize(case: &mut Case) {
         if let Case::Sparse { universe, capacity, multiset, .. } = case {
             *capacity %= 80;
-            if *capacity == 0 && *universe > (1 << 27) {
-                *universe = 1 << 27;
-            }
-            if *multiset && *capacity > *universe && *universe > (1 << 27) {
-                *universe = 1 << 27;
+            // an empty builder spends universe/2 bits on buckets: keep byte-decoded cases cheap
+            if *capacity == 0 && *universe > (1 << 16) {
+                *universe = 1 << 16;
             }
         }
     }
